@@ -288,9 +288,14 @@ def drain_operations(provider):
         worker = reg._worker
         if worker is None:
             continue
-        n += worker._operations_queue.qsize()
-        worker._operations_queue.put('stop_sco')
-        worker.run()
+        q = worker._operations_queue
+        n += q.qsize()
+        q.maxsize += 1          # room for the stop marker even if a burst has filled the queue
+        try:
+            q.put('stop_sco')
+            worker.run()
+        finally:
+            q.maxsize -= 1
     return n
 
 
